@@ -100,8 +100,14 @@ class World:
 
             ext["." + m] = disp
         ext["__iter__"] = self.iterate
+        ext["__call__"] = self.call_instance
         self.ext = ext
         return ext
+
+    def call_instance(self, v, args, kwargs):
+        if not (isinstance(v, Instance) and "__call__" in v.cls.methods):
+            raise NotHandled()
+        return self.call_method(v, "__call__", args, kwargs)
 
     def iterate(self, v):
         """Items of `for x in instance`: the operand of the `yield from` / `return iter(...)` of its __iter__."""
